@@ -100,6 +100,10 @@ func (s *sandbox) path(name string) string { return filepath.Join(s.root, "w", n
 // put (re)creates the input files with their original content, mode 0644 and the old mtime.
 func (s *sandbox) put(files []file) {
 	for _, f := range files {
+		if f.missing() {
+			os.Remove(s.path(f.Name))
+			continue
+		}
 		s.putOne(f.Name, f.Content)
 	}
 }
@@ -126,6 +130,14 @@ func (s *sandbox) read(name string) (string, bool) {
 		return "", false
 	}
 	return string(b), true
+}
+
+// touchedFile is touched for an input file; a missing input has nothing to compare.
+func (s *sandbox) touchedFile(f file) string {
+	if f.missing() {
+		return ""
+	}
+	return s.touched(f.Name, f.Content)
 }
 
 // touched reports how the file differs from (content, oldTime): "" if untouched.
@@ -197,6 +209,12 @@ func (s *sandbox) run(wrap []string, stdin *string, args ...string) result {
 		res.TimedOut = true
 	}
 	res.Stdout, res.Stderr = out.String(), errb.String()
+	// heartbeat: the framework reads progress off the mtime of the worker's "current
+	// case" file; a case made of many (slow, on a loaded machine) process runs stays visible
+	if p := os.Getenv("VERIF_CURFILE"); p != "" {
+		now := time.Now()
+		os.Chtimes(p, now, now)
+	}
 	if err != nil {
 		if ee, ok := err.(*exec.ExitError); ok {
 			ws := ee.Sys().(syscall.WaitStatus)
